@@ -54,6 +54,145 @@ def k_sim(method, a, b):
     return float(a @ b) / (na * nb)
 
 
+def whitening_v(nc, sigma=None):
+    """V = (C Sigma C')^{o2}: covariance of the RDM entries of nc conditions (kernel side, dense)"""
+    pairs = [(i, j) for i in range(nc) for j in range(i + 1, nc)]
+    C = np.zeros((len(pairs), nc))
+    for k, (i, j) in enumerate(pairs):
+        C[k, i], C[k, j] = 1.0, -1.0
+    xi = C @ (np.eye(nc) if sigma is None else np.asarray(sigma, float)) @ C.T
+    return xi * xi
+
+
+def k_pool_v(stat, nc, sigma=None):
+    """like k_pool, but a term with qn = qd = 0 is normalised by its V-norm sqrt(num' V^-1 num), V restricted to the
+    present entries (the normalisation of rsatoolbox.util.pooling for the whitened measures)"""
+    present = np.array(stat['present'], dtype=int) - 1
+    V = whitening_v(nc, sigma)[np.ix_(present, present)]
+    v = np.zeros(len(present))
+    for t in stat['terms']:
+        num = np.asarray(t['num'], float)
+        if t['qd'] == 0 or sigma is not None:
+            rad = float(num @ np.linalg.solve(V, num))
+        else:
+            rad = t['qn'] / t['qd']
+        v += num / np.sqrt(rad)
+    return v / stat['R']
+
+
+POOL_NC = ('euclid', 'neg_riem_dist', 'cosine', 'corr', 'cosine_cov', 'corr_cov', 'spearman', 'rho-a', 'kendall', 'tau-b', 'tau-a')
+POOL_FIT = tuple(m for m in POOL_NC if m != 'neg_riem_dist')
+
+
+def check_pool(rec, nc, rng, flavour=('list', 'int')):
+    """both pooling functions of the library against Pool of the specification, and against each other.
+    Returns (violations, n_eval)."""
+    import warnings
+    from rsatoolbox.util import inference_util as IU
+    from rsatoolbox.util import pooling as PL
+    from rsatoolbox.rdm import compare, RDMs
+    from harness.core import MachineryError
+    m = rec['meth']
+    val = to_float(rec['val'])
+    L = val.shape[1]
+    out, n_eval = [], 0
+    case = {'meth': m, 'val': rec['val'], 'NC': nc}
+    centred = m in ('corr', 'corr_cov')
+    whit = m in ('cosine_cov', 'corr_cov')
+
+    def norm(v):
+        return v - np.nanmin(v) if centred else v
+    got = {}
+    for kind, mod, fname in (('nc', IU, 'inference_util.pool_rdm'), ('fit', PL, 'pooling.pool_rdm')):
+        stat = rec[kind]
+        if not stat['R']:
+            continue
+        present = np.array(stat['present'], dtype=int) - 1
+        miss = np.ones(L, bool)
+        miss[present] = False
+        # kernel against the exact radicands where the specification has them
+        kp = k_pool_v(stat, nc) if (kind == 'fit' and whit) else k_pool(stat)
+        if kind == 'fit' and whit and stat['terms'][0]['qd'] != 0:
+            forced = dict(stat, terms=[dict(t, qn=0, qd=0) for t in stat['terms']])
+            if not np.allclose(k_pool_v(forced, nc), kp, rtol=0, atol=1e-12):
+                raise MachineryError(f'kernel V-norm disagrees with the exact radicand of the specification: {rec}')
+        rd = make_rdms(val, nc, flavour)
+        try:
+            with warnings.catch_warnings():
+                warnings.simplefilter('ignore')
+                p = mod.pool_rdm(rd, method=m)
+        except Exception as ex:
+            out.append((f'C07/pool/{fname}/{m}/raises/{type(ex).__name__}', f'{type(ex).__name__}: {ex}', case))
+            continue
+        n_eval += 1
+        pv = np.asarray(p.get_vectors(), float)
+        if pv.shape != (1, L) or not np.all(np.isnan(pv[0][miss])) or np.any(np.isnan(pv[0][present])):
+            out.append((f'C07/pool/{fname}/{m}/shape-or-nan-positions', 'pooled RDM is not one RDM missing exactly the entries missing from all RDMs',
+                        dict(case, pooled=pv.tolist())))
+            continue
+        tol = 1e-11 if not (kind == 'fit' and whit) else 1e-4        # util.pooling whitened: conjugate gradient, rtol 1e-5
+        a, b = norm(pv[0][present]), norm(kp)
+        if not np.allclose(a, b, rtol=0, atol=tol * max(1.0, np.abs(b).max())):
+            out.append((f'C07/pool/{fname}/{m}/value', 'pooled RDM differs from NanMean o Normalise of the specification',
+                        dict(case, pooled=a.tolist(), spec=b.tolist())))
+        if not np.array_equal(rd.get_vectors(), val, equal_nan=True):
+            out.append((f'C07/frame/{fname}/{m}/data-modified', 'pooling altered the data RDMs', case))
+        if list(p.pattern_descriptors.get('cond', [])) != list(rd.pattern_descriptors['cond']) or \
+                set(p.rdm_descriptors) - {'index'} or p.n_rdm != 1:
+            out.append((f'C07/pool/{fname}/{m}/descriptors', 'pooled RDM does not carry the condition descriptors / carries rdm descriptors',
+                        dict(case, pattern=list(map(str, p.pattern_descriptors)), rdm=list(map(str, p.rdm_descriptors)))))
+        got[kind] = (p, pv[0])
+    if len(got) == 2:
+        a, b = norm(got['nc'][1]), norm(got['fit'][1])
+        if not whit:
+            if not np.allclose(a, b, rtol=0, atol=1e-12, equal_nan=True):
+                out.append((f'C07/pool/implementations-disagree/{m}', 'util.pooling.pool_rdm and util.inference_util.pool_rdm pool differently',
+                            dict(case, inference_util=a.tolist(), pooling=b.tolist())))
+        else:
+            # the whitened measures: both functions promise "the RDM with maximal performance under the chosen method"
+            rd = make_rdms(val, nc, flavour)
+            s_nc = float(np.mean(compare(got['nc'][0], rd, method=m)))
+            s_fit = float(np.mean(compare(got['fit'][0], rd, method=m)))
+            n_eval += 2
+            if s_fit > s_nc + 1e-7:
+                out.append((f'C07/pool/inference_util.pool_rdm/{m}/not-the-maximiser',
+                            'inference_util.pool_rdm normalises the whitened measure by the plain norm: util.pooling.pool_rdm of the same data is more similar to the data',
+                            dict(case, inference_util_score=s_nc, pooling_score=s_fit)))
+            if s_nc > s_fit + 1e-5:
+                out.append((f'C07/pool/pooling.pool_rdm/{m}/not-the-maximiser', 'util.pooling.pool_rdm is beaten by inference_util.pool_rdm on the whitened measure',
+                            dict(case, inference_util_score=s_nc, pooling_score=s_fit)))
+    # util.pooling with a given sigma_k: value by the kernel, and nothing nearby scores higher
+    if whit and rec['fit']['R']:
+        d = 1.0 + 0.3 * np.arange(nc)
+        sigma = np.array([[0.5 ** abs(i - j) * np.sqrt(d[i] * d[j]) for j in range(nc)] for i in range(nc)])
+        present = np.array(rec['fit']['present'], dtype=int) - 1
+        if len(present) == L:          # compare() cannot take sigma_k together with missing entries
+            rd = make_rdms(val, nc, flavour)
+            try:
+                p = PL.pool_rdm(rd, method=m, sigma_k=sigma)
+                pv = np.asarray(p.get_vectors(), float)[0]
+                kp = k_pool_v(rec['fit'], nc, sigma)
+                a, b = norm(pv), norm(kp)
+                if not np.allclose(a, b, rtol=0, atol=1e-4 * max(1.0, np.abs(b).max())):
+                    out.append((f'C07/pool/pooling.pool_rdm/{m}/sigma_k/value', 'pooled RDM differs from the V(sigma_k)-normalised mean',
+                                dict(case, pooled=a.tolist(), spec=b.tolist())))
+                C = [pv] + [val[r] for r in range(len(val))]
+                for k in range(L):
+                    for sg in (1, -1):
+                        c = pv.copy()
+                        c[k] += sg * 1e-2 * max(1.0, np.abs(pv).max())
+                        C.append(c)
+                C += list(pv[None, :] + rng.normal(0, 0.3 * max(1.0, np.abs(pv).max()), size=(20, L)))
+                sc = compare(RDMs(np.array(C)), rd, method=m, sigma_k=sigma).mean(axis=1)
+                n_eval += len(C)
+                if sc[1:].max() > sc[0] + 1e-5:
+                    out.append((f'C07/pool/pooling.pool_rdm/{m}/sigma_k/beaten', 'a candidate is more similar to the data than the pooled RDM',
+                                dict(case, pooled_score=float(sc[0]), best=float(sc[1:].max()))))
+            except Exception as ex:
+                out.append((f'C07/pool/pooling.pool_rdm/{m}/sigma_k/raises/{type(ex).__name__}', f'{type(ex).__name__}: {ex}', case))
+    return out, n_eval
+
+
 def tok_pos(t, nc):
     """0-based position of token t's condition pair in the source condensed vector"""
     i, j = (t % 100) // 10, t % 10
